@@ -67,6 +67,14 @@ def classify_exc(e, tb, own_code=None):
         if _CONFIG_TE.search(msg):
             return "config"
         if _BIND.search(msg):
+            # Who refused the arguments?  The message names the function: the entry point carries the plain name
+            # of the overloaded function, an adapted method is called "name[types]" and a generated value-dependent
+            # dispatcher "name.specialized_dispatch_N".
+            mname = re.match(r"^(.+?)\(\) ", msg)
+            if mname:
+                fname = mname.group(1)
+                if "[" in fname or ".specialized_dispatch" in fname:
+                    return "badcall"
             inner = tb
             while inner.tb_next is not None:
                 inner = inner.tb_next
@@ -81,6 +89,8 @@ def classify_exc(e, tb, own_code=None):
                 return "rejected"
             if code.co_filename.endswith("core.py") and code.co_name == "__call__":
                 return "rejected"
+            if mname and code.co_filename.replace("\\", "/").endswith("/ovld/core.py"):
+                return "rejected"  # refused by the entry point, called from some trampoline inside the library
             return "badcall"
         return "other"
     if isinstance(e, OSError) and "ovld is unable to rewrite" in msg:
